@@ -1,8 +1,10 @@
 #!/bin/bash
-# runs the listed own mutations one after the other; summary in /var/tmp/mut/own.log
-for name in "$@"; do
+# runs the listed own mutations (name or name:CHECK) one after the other
+for spec in "$@"; do
+  name=${spec%%:*}; over=${spec#*:}
   (cd /var/tmp/mut/m && git checkout -q -- . && git checkout -q --detach $(git -C /repo rev-parse HEAD))
   id=$(python3 /verif/devtools/ownmut/apply.py $name) || { echo "== $name APPLY FAILED"; continue; }
+  [ "$over" != "$spec" ] && id=$over
   echo "== $name ($id)"
-  /verif/devtools/mutrun.sh own-$name $id
+  /verif/devtools/mutrun.sh own-$name-$id $id
 done
